@@ -286,6 +286,26 @@ def check_source(desc, proto, max_in, max_out, as_kind):
                 b.name = "c18_tmp_name"
                 a.name = na
                 b.name = nb
+    # views over a suffix of the node list: a boundary value produced by the dropped prefix is only CONSUMED inside
+    # the view; naming it must give the same region as passing the value object
+    if as_kind == "view" and not found:
+        all_nodes = list(main)
+        for k in range(1, len(all_nodes)):
+            suffix = all_nodes[k:]
+            sview = ir.GraphView(main.inputs, main.outputs, nodes=suffix, initializers=tuple(main.initializers.values()), name=main.name, opset_imports=main.opset_imports)
+            from_prefix = [o for n_ in all_nodes[:k] for o in n_.outputs if o.name and any(u.node in suffix for u in o.uses())]
+            for v in from_prefix:
+                for out in [o for n_ in suffix for o in n_.outputs if o.name]:
+                    n_cuts += 1
+                    cut = ([v.name], [out.name], f"suffix_view[{k}]")
+                    res = {}
+                    for mode, ins_, outs_ in (("by_object", [v], [out]), ("by_name", [v.name], [out.name])):
+                        try:
+                            res[mode] = ("ok", [n_.name for n_ in ir_conv.extract(sview, ins_, outs_)])
+                        except Exception as e:  # noqa: BLE001
+                            res[mode] = ("raised", type(e).__name__)
+                    if res["by_object"][0] != res["by_name"][0] or (res["by_object"][0] == "ok" and res["by_object"][1] != res["by_name"][1]):
+                        bad("boundary_by_name_and_by_object_disagree_on_a_view", res, cut)
     # extract - edit inside a control-flow body (same node count) - extract again: what a body captures is read off
     # the source as it is NOW, and so is the implicit-usage analysis
     if as_kind == "graph" and not found:
